@@ -82,6 +82,9 @@ pub struct Config {
     pub poison_free: bool,
     /// 0 = never fail; k = the k-th in-scope allocation request returns null.
     pub fail_at: u32,
+    /// with `fail_at = k`: every request from the k-th on fails (an exhausted
+    /// heap), not just the k-th (a transient failure)
+    pub fail_persist: bool,
     pub alloc_seed: u64,
 }
 
@@ -92,17 +95,19 @@ impl Config {
         realloc_move: false,
         poison_free: true,
         fail_at: 0,
+        fail_persist: false,
         alloc_seed: 0,
     };
 
     pub fn to_text(&self) -> String {
         format!(
-            "placement={} fill={} realloc_move={} poison_free={} fail_at={} alloc_seed={}",
+            "placement={} fill={} realloc_move={} poison_free={} fail_at={} fail_persist={} alloc_seed={}",
             self.placement as u8,
             self.fill as u8,
             self.realloc_move as u8,
             self.poison_free as u8,
             self.fail_at,
+            self.fail_persist as u8,
             self.alloc_seed
         )
     }
@@ -135,6 +140,7 @@ impl Config {
                 "realloc_move" => c.realloc_move = n != 0,
                 "poison_free" => c.poison_free = n != 0,
                 "fail_at" => c.fail_at = n as u32,
+                "fail_persist" => c.fail_persist = n != 0,
                 "alloc_seed" => c.alloc_seed = n,
                 _ => return None,
             }
@@ -149,7 +155,11 @@ impl Config {
             self.fill,
             if self.realloc_move { "/realloc-move" } else { "" },
             if self.poison_free { "" } else { "/no-poison" },
-            if self.fail_at != 0 { format!("/fail_at={}", self.fail_at) } else { String::new() }
+            if self.fail_at != 0 {
+                format!("/fail_{}={}", if self.fail_persist { "from" } else { "at" }, self.fail_at)
+            } else {
+                String::new()
+            }
         )
     }
 }
@@ -441,7 +451,7 @@ impl State {
         let align = layout.align();
         self.alloc_index += 1;
         let idx = self.alloc_index;
-        if self.cfg.fail_at != 0 && idx == self.cfg.fail_at {
+        if self.cfg.fail_at != 0 && (idx == self.cfg.fail_at || (self.cfg.fail_persist && idx > self.cfg.fail_at)) {
             self.counters.failed_allocs += 1;
             self.event(EventKind::FailedAlloc, 0, size, align, false);
             let fd = OOM_FD.load(Ordering::Relaxed);
